@@ -28,6 +28,16 @@ by-reference queue (`by_ref_stack`), the function-result stash and the stack tra
   the GOSUB half of the mark is not modelled: no GOSUB in this phase).
 * `trace` is the `stacktrace` (`PushStack` inserts the call position, `PopStack` removes it); the position of a
   failing built-in (READ) is its head.
+* `skipNewline` is `PrintState::should_skip_new_line`.  Every PRINT statement starts with it cleared
+  (`PrintSetPrinterType` → `PrintState::reset`, repair 89314cd in /repo: before it, a bare `PRINT` executed by a
+  function called from `PRINT 1; F%(2)` consumed the caller's pending `;` instead of breaking the line — found by the
+  proof of `Proc.compile_correct`).  The repaired VM also saves the whole `PrintState` (device, format string,
+  pending separator) at `PushRet` and restores it at `PopRet` (`saved_print_states`); the model does NOT follow that:
+  of the print state it has only the flag (one device, no format string in this fragment), and the flag a callee
+  leaves behind is never read — a call occurs either outside a PRINT statement (the next PRINT clears the flag) or
+  inside an item expression of a PRINT list, which is always followed by `PrintValueFromA` (sets the flag to
+  `false` in both) before the statement's `PrintEnd` reads it.  The tie (c03p: VM model = real stdout) checks this
+  on every explored program with calls inside PRINT lists.
 
 `stuck` marks what the real VM answers with a panic (stack underflow, `expect` on a wrong state, …) or what
 the model does not cover (inexact floats).  Errors end the run: there is no ON ERROR in this phase.
@@ -208,7 +218,7 @@ def step (code : Code) (σ : Vm) : StepRes :=
     | .throwZeroStep => .error _root_.RbModel.Ref.codeZeroStep p σ
     | .halt => .halt σ
     | .allocate t => .next (advance (setA σ (zeroOf t)))
-    | .printSetPrinter => .next (advance σ)
+    | .printSetPrinter => .next (advance { σ with skipNewline := false })
     | .printSetFormat =>
       match σ.regs.a with
       | .str _ => .stuck
